@@ -1,5 +1,9 @@
 (* C09 model driver.  One case per line:
-     <A> <C> <mem:0|1> <op> ... [## <implementation's observable tokens>]
+     <A> <C> <mem:0|1>[n] <op> ... [## <implementation's observable tokens>]
+   flag n (e.g. "1n"): NDEBUG semantics - the library's normal build, assertions compiled out: the M line
+     comes from BumpNdebug.bump_run_nd (aligned_alloc without the size assertion) and the S/T lines from
+     BumpNdebug.spec_check_nd (which also judges aligned_alloc requests whose size is not a multiple of the
+     alignment, and everything after them)
    ops: M<n>  C<nmemb>,<size>  R<id|N>,<n>  F<id|N>  A<alignment>,<n>  E<id|N>     (id = index of the allocating op)
    M line: the extracted model (BumpSpec.bump_run over BumpModel) : responses || states and memory writes
    S line: verdict of the extracted SPEC checker (BumpSpec.spec_check) on the implementation's own
@@ -12,6 +16,7 @@ module Char = Stdlib.Char
 module Printf = Stdlib.Printf
 open Zutil
 open BumpSpec
+open BumpNdebug
 
 let zs = z_of_string
 let two64 = zs "18446744073709551616"
@@ -66,7 +71,13 @@ let split_marker (line : string) =
 
 let rec zip a b = match a, b with x :: a', y :: b' -> (x, y) :: zip a' b' | _ -> []
 
-let verdict a c tr =
+let verdict nd a c tr =
+  if nd then begin
+    if spec_check_nd a c tr then None
+    else match spec_first_reject_nd a c O (spec_init a) tr with
+      | Some k -> Some (int_of_nat k)
+      | None -> Some (-1)
+  end else
   if spec_check a c tr then None
   else match spec_first_reject a c O (spec_init a) tr with
     | Some k -> Some (int_of_nat k)
@@ -94,10 +105,12 @@ let () =
     try
       let case, implobs = split_marker line in
       match split_ws case with
-      | a :: c :: memflag :: ops ->
+      | a :: c :: memtok :: ops when String.length memtok >= 1 ->
         let a = zs a and c = zs c in
+        let memflag = String.sub memtok 0 1 in
+        let nd = String.contains memtok 'n' in
         let reqs = List.map parse_op ops in
-        let run = bump_run a c (fun _ -> dirty) reqs in
+        let run = (if nd then bump_run_nd else bump_run) a c (fun _ -> dirty) reqs in
         let obs = List.map (fun e -> resp_token e.e_req e.e_resp e.e_zero) run in
         let init = BumpModel.bump_init a in
         let st_tok (s : BumpModel.state) = string_of_z s.BumpModel.top ^ "," ^ string_of_z s.BumpModel.last in
@@ -118,13 +131,13 @@ let () =
                 (* a run may only be shorter than the history if it ended in ABORT *)
                 let short_ok = List.length rs = List.length reqs ||
                                (rs <> [] && fst (List.nth rs (List.length rs - 1)) = OAbort) in
-                match verdict a c tr with
+                match verdict nd a c tr with
                 | None when short_ok -> Printf.printf "S %s\n" (String.concat " " toks)
                 | None -> Printf.printf "S REJECT truncated\n"
                 | Some k -> Printf.printf "S REJECT@%d\n" k
               end
             with _ -> Printf.printf "S REJECT unparsable\n"));
-        (match verdict a c mtrace with
+        (match verdict nd a c mtrace with
          | None -> Printf.printf "T ok\n"
          | Some k -> Printf.printf "T REJECT@%d\n" k)
       | _ -> Printf.printf "M ?\nS ?\nT ?\n"
